@@ -355,7 +355,9 @@ class Hist:
                 a.ref.user = saved_user
             elif kind == "restart":
                 self._judge_restart(a, op, snap, pre)
-                a.ref = self._resync(a, a.ref, op) if "restart_equal" not in self.oracles else a.ref
+                user = a.ref.user
+                a.ref = self._resync(a, a.ref, op)
+                a.ref.user = user
             elif status == "ok":
                 self.stats["judged_P"] += 1
                 for rid in env.resync_rules:
@@ -456,6 +458,11 @@ class Hist:
         for spec in ([op] if kind == "set_bounds" else op.get("rxns", []) if kind == "add_reactions" else []):
             if spec.get("lb") == INF or spec.get("ub") == -INF:
                 raise Skip("bound outside the domain")
+        if kind == "restart" and op.get("fmt") == "sbml":
+            if any(not m["compartment"] for m in ref.mets.values()):
+                raise Skip("SBML requires every species to have a compartment")
+            if any(not x["mets"] for x in ref.rxns.values()):
+                raise Skip("SBML does not permit a reaction without reactants and products")
         # rename_genes: "undefined if a value matches a different key" (comment in the code)
         if kind == "rename_genes":
             mp = op["map"]
@@ -920,11 +927,11 @@ class Hist:
         if "restart_equal" not in self.oracles:
             return
         fmt = op["fmt"]
-        want = a.ref.content()
-        got = copy.deepcopy(snap["content"])
-        project_observed(got, fmt)
+        want = project_observed(a.ref.content(), fmt)
+        got = project_observed(copy.deepcopy(snap["content"]), fmt)
         d = S.diff(got, want)
-        if not d and a.ref.direction != snap["objective"]["direction"]:
+        empty_obj = fmt == "sbml" and not a.ref.obj  # no objective is written then; the direction has no meaning
+        if not d and a.ref.direction != snap["objective"]["direction"] and not empty_obj:
             d = [f"/direction: {snap['objective']['direction']} != {a.ref.direction}"]
         if d:
             raise Violation("restart_equal", {"what": f"model loaded from {fmt} differs from what was saved",
@@ -996,8 +1003,29 @@ def project_ref(ref, fmt, quarantine=()):
     return r
 
 
-def project_observed(content, fmt):
-    """Normalise the observed content of a loaded model in the places a format does not promise."""
+def _ann_norm(ann):
+    """An annotation is a set of (provider, identifier) pairs: a scalar and a one-element list are
+    the same annotation (cobrapy's reader returns a scalar for a single identifier)."""
+    out = {}
+    for k, v in (ann or {}).items():
+        out[k] = sorted(v) if isinstance(v, list) else [v]
+    return out
+
+
+def project_observed(content, fmt, want=None):
+    """Normalise content (observed or expected) in the places a format does not promise."""
+    if fmt != "sbml":
+        return content
+    for tbl in ("reactions", "metabolites", "genes"):
+        for oid, x in content[tbl].items():
+            x["annotation"] = _ann_norm(x.get("annotation"))
+            if isinstance(x.get("name"), str):
+                x["name"] = x["name"].strip()  # C10's domain: names without surrounding blanks
+            if tbl == "metabolites" and not x.get("formula"):
+                x["formula"] = None  # '' and None both mean "no formula"
+            if tbl == "reactions":
+                x["subsystem"] = ""  # carried only through groups; not in C10's list
+    content["annotation"] = _ann_norm(content.get("annotation"))
     return content
 
 
@@ -1093,6 +1121,7 @@ def make_swarm(rng, prop, run_cfg):
         sw["p_rule"] = 0.9
     if prop == "C10":
         sw["restart_formats"] = ["sbml"]
+        sw["sbml_domain"] = True
     if prop == "C11":
         sw["restart_formats"] = [f for f in ["pickle", "dict", "json", "yaml"] if rng.random() < 0.7] or ["json"]
     if not weights:
@@ -1213,8 +1242,19 @@ def gen_op(rng, H, sw):
         kind = rng.choice(["rxn", "met", "gene", "model"])
         i = {"rxn": rid(), "met": mid(), "gene": (rng.choice(gids) if gids else "g0"), "model": None}[kind]
         which = rng.choice(["notes", "annotation"])
-        val = rng.choice(["v1", ["a", "b"]]) if which == "annotation" else rng.choice(["note", "other"])
-        op.update(kind=kind, id=i, which=which, key=rng.choice(["k1", "kegg", "sbo"]), value=val)
+        if sw.get("sbml_domain"):
+            if which == "annotation":
+                key = rng.choice(["kegg.compound", "chebi", "ec-code", "sbo"])
+                val = {"kegg.compound": rng.choice(["C00001", ["C00002", "C00003"]]),
+                       "chebi": rng.choice(["CHEBI:17234", ["CHEBI:17234", "CHEBI:4167"], ["CHEBI:15377"]]),
+                       "ec-code": rng.choice(["1.1.1.1", ["2.7.1.1", "2.7.1.2"]]),
+                       "sbo": rng.choice(["SBO:0000176", "SBO:0000247"])}[key]
+            else:
+                key, val = rng.choice(["note", "curator", "confidence"]), rng.choice(["plain text", "x", "3"])
+            op.update(kind=kind, id=i, which=which, key=key, value=val)
+        else:
+            val = rng.choice(["v1", ["a", "b"]]) if which == "annotation" else rng.choice(["note", "other"])
+            op.update(kind=kind, id=i, which=which, key=rng.choice(["k1", "kegg", "sbo"]), value=val)
     elif k == "add_metabolites":
         ms = []
         for _ in range(rng.randint(1, 2)):
@@ -1348,6 +1388,7 @@ def gen_op(rng, H, sw):
         op["value"] = rng.choice([{"c": "cyto"}, {"e": "extra", "p": "peri"}, {}])
     elif k == "add_groups":
         members = [["Reaction", r] for r in rids if rng.random() < 0.3] + [["Metabolite", m] for m in mids if rng.random() < 0.2]
+        members += [["Gene", g] for g in gids if rng.random() < 0.2]
         gid = _fresh("grp", ref.groups, rng) if rng.random() < 0.8 or not ref.groups else rng.choice(sorted(ref.groups))
         op["groups"] = [{"id": gid, "name": "g", "kind": rng.choice(["collection", "classification"]), "members": members}]
     elif k == "remove_groups":
